@@ -149,7 +149,10 @@ def extract_reuse_info(text: str) -> ReuseInfo:
     # License expressions and copyright matches are special cases.
     expressions = set()
     copyright_matches = set()
-    for expression in spdx_tags.pop("spdx_expressions"):
+    # Expressions of equal meaning ('MIT OR 0BSD', '0BSD OR MIT') are equal,
+    # so only the first one makes it into the set. Let that not depend on the
+    # order in which a set of strings happens to be walked.
+    for expression in sorted(spdx_tags.pop("spdx_expressions")):
         try:
             expressions.add(_LICENSING.parse(expression))
         except (ExpressionError, ParseError):
